@@ -10,6 +10,7 @@ import (
 type memorySessionStore struct {
 	lock     sync.Mutex
 	sessions map[string]*EncryptedData
+	locks    map[string]*memoryLock
 }
 
 var _ Store = &memorySessionStore{}
@@ -17,6 +18,7 @@ var _ Store = &memorySessionStore{}
 func NewMemory() Store {
 	return &memorySessionStore{
 		sessions: make(map[string]*EncryptedData),
+		locks:    make(map[string]*memoryLock),
 	}
 }
 
@@ -64,6 +66,38 @@ func (s *memorySessionStore) Update(_ context.Context, key string, value *Encryp
 	return nil
 }
 
-func (s *memorySessionStore) MakeLock(_ string) Lock {
-	return NewNoOpLock()
+func (s *memorySessionStore) MakeLock(key string) Lock {
+	return &memoryLock{store: s, key: lockKey(key)}
+}
+
+// memoryLock is an in-process counterpart of RedisLock: at most one holder per key, the claim lapses after its lease.
+type memoryLock struct {
+	store   *memorySessionStore
+	key     string
+	expires time.Time
+}
+
+var _ Lock = &memoryLock{}
+
+func (l *memoryLock) Acquire(_ context.Context, duration time.Duration) error {
+	l.store.lock.Lock()
+	defer l.store.lock.Unlock()
+
+	if holder, found := l.store.locks[l.key]; found && holder != l && time.Now().Before(holder.expires) {
+		return ErrAcquireLock
+	}
+
+	l.expires = time.Now().Add(duration)
+	l.store.locks[l.key] = l
+	return nil
+}
+
+func (l *memoryLock) Release(_ context.Context) error {
+	l.store.lock.Lock()
+	defer l.store.lock.Unlock()
+
+	if l.store.locks[l.key] == l {
+		delete(l.store.locks, l.key)
+	}
+	return nil
 }
